@@ -50,6 +50,7 @@ def crosscheck(c, tier, seed):
     tried = 0
     skipped = 0
     disagreements = []
+    real_violations = []
     samples = []
     for _ in range(n * 4):
         if tried >= n:
@@ -102,5 +103,19 @@ def crosscheck(c, tier, seed):
         else:
             disagreements.append({'inputs': C.jsonable(inputs), 'engine': C.jsonable(norm(out[1])) if out[0] == 'return' else out,
                                   'cpython': C.jsonable(C.to_engine_value(native[1])) if native[0] == 'return' else native[1:]})
+            # the real run is what counts: does CPython's own result break a postcondition on this input?
+            if native[0] == 'return' and len(real_violations) < 3:
+                res = C.to_engine_value(native[1])
+                extra = {'result': res}
+                if c.yields is not None or isinstance(native[1], list):
+                    extra['Y'] = res
+                for nm, text in c.ensures.items():
+                    try:
+                        ok, why = C.eval_clause_concrete(c, text, inputs, extra)
+                    except Exception:      # noqa: BLE001
+                        ok = None
+                    if ok is False:
+                        real_violations.append({'clause': 'post.' + nm, 'inputs': dict(inputs)})
+                        break
     return {'tried': tried, 'agree': agree, 'skipped_by_requires': skipped, 'disagreements': disagreements[:5],
-            'samples': samples}
+            'samples': samples, 'real_violations': real_violations}
